@@ -40,7 +40,7 @@ ASSUMPTIONS = [
 RULE = ("programs {ORCA,G09,NWChem,QChem,XTB,MOPAC} x atom counts (quick 1..12, thorough 1..40 incl. every residue of the block "
         "widths 5/6/10) x {1,3} steps x calculation kind {opt,grad,hess} x coordinate-source variants; every line-level "
         "truncation point for small outputs and a strided + block-boundary set for large ones; xyz: species 1..40 atoms x "
-        "charge x mult x solvent x energy x {1..4} frames, malformed mutants; a case is non-trivial when a block wraps, "
+        "charge x mult x solvent x energy x {1..4} frames, every implicit solvent name of the library, malformed mutants; one Calculation object re-reading a completed / replaced / truncated file;  a case is non-trivial when a block wraps, "
         "several steps are present, the output is truncated or an error is expected; distinct by (program, n, steps, kind, variant, cut)")
 
 SLICE = ["lib/Sums.v", "lib/QcInst.v", "C18/Model.v", "C18/Lemmas.v", "C18/Props.v", "C18/Corr.v"]
@@ -1108,9 +1108,8 @@ def make_calc(meths, prog, kind, case, xyz0):
     return sp, calc
 
 
-def run_calc(meths, prog, kind, case, main, xyz0):
-    """Calculation.set_output_filename on `main`; -> dict"""
-    sp, calc = make_calc(meths, prog, kind, case, xyz0)
+def apply_calc(sp, calc, main):
+    """Calculation.set_output_filename(main) on an EXISTING calculation; -> dict of what the species holds"""
     r = {"ok": False, "exc": None, "family": 0}
     try:
         calc.set_output_filename(main)
@@ -1129,6 +1128,12 @@ def run_calc(meths, prog, kind, case, main, xyz0):
     except Exception:  # noqa
         r["charges"] = None
     return r
+
+
+def run_calc(meths, prog, kind, case, main, xyz0):
+    """a fresh Calculation, set_output_filename on `main`; -> dict"""
+    sp, calc = make_calc(meths, prog, kind, case, xyz0)
+    return apply_calc(sp, calc, main)
 
 
 def expected(prog, T, n):
@@ -1584,6 +1589,74 @@ def stream_real(ctx, meths, F, real_dir):
     clean_dir()
 
 
+# ============================================================================ one calculation, file rewritten
+class _Collect:
+    def __init__(self):
+        self.count, self.items = 0, []
+
+    def add(self, key, what, rep):
+        self.count += 1
+        self.items.append((key, what))
+
+
+def stream_reuse(ctx, meths, F, sizes):
+    """ONE Calculation object per case; the output file is completed / replaced on disk under the same
+    name and set_output_filename is called again: the values must be those of the file as it is now."""
+    SY = sys.modules[__name__]
+    for prog in SY.PROGRAMS:
+        variant = {"orca": "hess", "qchem": "opt"}.get(prog, "std")
+        kind = "opt" if "opt" in kinds_for(prog, variant) else "grad"
+        for n in sizes:
+            caseA, SA = build_case(ctx, prog, n, 2 if prog not in ("xtb", "mopac") else 1, variant)
+            caseB, SB = build_case(ctx, prog, n, 1, variant, exotic=False)
+            EA, EB = expected(prog, SA.truth, n), expected(prog, SB.truth, n)
+            xyz0 = caseA.steps[0]["xyz"]
+            term = max(i for i, l in enumerate(SA.files[SA.main]) if any(t in l for t in TERMINATION[prog]))
+
+            def put(case, S, cut=None):
+                materialise(prog, variant, case, S)
+                if cut is not None:
+                    write_files({S.main: S.files[S.main][:cut]})
+
+            def judge(tag, case, S, E, r, rep):
+                col = _Collect()
+                check_complete(col, prog, kind, variant, case, S, r, E, xyz0 if kind != "opt" else xyz0, rep)
+                col.items = [(k, w) for k, w in col.items if k not in ctx.known_keys()]
+                if col.items:
+                    F.add("CalculationOutput.filename|stale-output-after-rewrite",
+                          f"{prog} {kind}: {tag}: the second set_output_filename with the same name does not return the "
+                          f"values of the file now on disk: {col.items[0][1]}", rep)
+            # (a) truncated -> completed
+            rep = {"stream": "reuse", "prog": prog, "n": n, "variant": variant, "kind": kind, "scenario": "truncated-then-complete"}
+            ctx.count("reuse", (prog, n, "a"), nontrivial=True, sample=rep)
+            put(caseA, SA, cut=term)
+            sp, calc = make_calc(meths, prog, kind, caseA, xyz0)
+            apply_calc(sp, calc, SA.main)
+            put(caseA, SA)
+            judge("output read while truncated, then completed on disk", caseA, SA, EA, apply_calc(sp, calc, SA.main), rep)
+            # (b) complete A -> replaced by B -> truncated B
+            rep = {"stream": "reuse", "prog": prog, "n": n, "variant": variant, "kind": kind, "scenario": "replaced"}
+            ctx.count("reuse", (prog, n, "b"), nontrivial=True, sample=rep)
+            put(caseA, SA)
+            sp, calc = make_calc(meths, prog, kind, caseA, xyz0)
+            r1 = apply_calc(sp, calc, SA.main)
+            put(caseB, SB)
+            r2 = apply_calc(sp, calc, SB.main)
+            if r1["ok"]:
+                judge("complete output replaced by a different output under the same name", caseB, SB, EB, r2, rep)
+            if prog in ("orca", "g09", "nwchem"):        # the programs whose termination marker is checked
+                termB = max(i for i, l in enumerate(SB.files[SB.main]) if any(t in l for t in TERMINATION[prog]))
+                put(caseB, SB, cut=termB)
+                r3 = apply_calc(sp, calc, SB.main)
+                ctx.count("reuse", (prog, n, "c"), nontrivial=True)
+                if r3["ok"]:
+                    F.add("CalculationOutput.filename|stale-output-after-rewrite",
+                          f"{prog} {kind}: a complete output was replaced by a truncated one under the same name (termination "
+                          "line missing) and the second set_output_filename still reports normal termination",
+                          dict(rep, scenario="complete-then-truncated"))
+    clean_dir()
+
+
 # ============================================================================ xyz files
 XYZ_SYMS = ["H", "C", "N", "O", "F", "Cl", "Br", "S", "P", "Si", "Pd", "Li"]
 
@@ -1680,6 +1753,21 @@ def stream_xyz(ctx, F, sizes, n_per):
                     read_back_frame(m, sp, F, "xyz_file_to_molecules", rep)
             except Exception as e:  # noqa
                 F.add("xyz_file_to_molecules|valid-file-rejected", f"{type(e).__name__}: {str(e)[:100]}", rep)
+    # ---- EVERY implicit solvent of the library whose name is one token (commas, digits, '=', brackets ...):
+    #      written by the real writer, read back by both readers
+    for solvent in plain:
+        sp = xyz_species(ctx, "solv-" + solvent, 2, solvent, True)
+        clean_dir()
+        sp.print_xyz_file(filename="s.xyz")
+        rep = {"stream": "xyz", "quirk": "solvent-sweep", "solvent": solvent}
+        ctx.count("xyz", ("solvent-sweep", solvent), nontrivial=True, sample=rep if "," in solvent else None)
+        for reader, fun in (("Molecule(xyz)", lambda: Molecule("s.xyz")), ("xyz_file_to_molecules", lambda: xyz_file_to_molecules("s.xyz")[0])):
+            try:
+                m = fun()
+                read_back_frame(m, sp, F, reader, rep)
+            except Exception as e:  # noqa
+                F.add(f"{reader}|solvent-differs", f"{reader}: species written with 'solvent_name = {solvent}' is not read back: "
+                      f"{type(e).__name__}: {str(e)[:80]}", rep)
     # ---- every implicit solvent whose library name contains a blank: the title value is cut at the blank
     failing = []
     for solvent in blank:
@@ -1944,8 +2032,15 @@ def stream_model(ctx, meths, F, atom_counts, trunc_limit, n_titles):
     titles = ["charge = 0 mult = 1", "Generated by autodE on: 2026-10-01. charge = -1 mult = 2 solvent_name = water E = -76.123457 Ha",
               "xmult = 5 mult = 1", "maxE = 3.0 E = -1.5", "charge = 1 total_charge = 1", "charge = mult = 2", "E = ", "mult =  3",
               "charge =", "solvent_name = diethyl ether E = -1.000000 Ha", "a = b  c = d", "charge = 2\tmult = 3", "  ", "",
-              "E = -1.0E = -2.0", "mult = 4 mult = 5", "charge=1 mult = 2", "kcharge = 7"]
-    alphabet = ["charge", "mult", "E", "solvent_name", " = ", " ", "=", "x", "1", "-2.5", "Ha", "water", "\t", "e", "E ="]
+              "E = -1.0E = -2.0", "mult = 4 mult = 5", "charge=1 mult = 2", "kcharge = 7",
+              "solvent_name = 1,2-dichloroethane E = -1.000000 Ha", "charge = +1;mult = 2", "solvent_name = n,n-dimethylformamide",
+              "E = -1.5,mult = 3", "solvent_name = (e)-1,2-dichloroethene charge = -1", "mult = 3: charge = 2", "E = 1e-3;",
+              "solvent_name = 4=methylpyridine mult = 2", "charge = -1,", "mult = ;2", "E = ,", "charge = 1+2-3(4)5:6;7,8 mult = 9"]
+    from autode.solvent.solvents import solvents as _solvents
+    titles += [f"charge = 0 mult = 1 solvent_name = {s.name} E = -1.000000 Ha" for s in _solvents
+               if s.is_implicit and any(ch in s.name for ch in ",;:+()=")][:12]
+    alphabet = ["charge", "mult", "E", "solvent_name", " = ", " ", "=", "x", "1", "-2.5", "Ha", "water", "\t", "e", "E =",
+                ",", ";", ":", "+", "(", ")", "1,2-d"]
     for _ in range(n_titles):
         titles.append("".join(rng.choice(alphabet) for _ in range(rng.randint(1, 9))))
     for t in titles:
@@ -2098,11 +2193,11 @@ def stream_model_xyz(ctx, add, reader_key):
 # ============================================================================ entry points
 def tiers(ctx):
     if ctx.quick:
-        return {"complete": [1, 2, 3, 4, 5, 6, 7, 10, 12], "steps": [1, 3], "trunc": [(1, 120), (2, 50), (3, 24)],
+        return {"complete": [1, 2, 3, 4, 5, 6, 7, 10, 12], "steps": [1, 3], "trunc": [(1, 120), (2, 50), (3, 24)], "reuse": [2, 7],
                 "xyz": ([1, 2, 3, 5, 8, 12], 3),
                 "model": ({"orca": [1, 2, 3], "qchem": [1, 3], "nwchem": [2, 4], "g09": [1, 3]}, 8, 20)}
     return {"complete": list(range(1, 41)), "steps": [1, 3], "trunc": [(1, 1000), (2, 1000), (3, 600), (5, 300), (7, 200), (12, 150)],
-            "xyz": (list(range(1, 41)), 4),
+            "reuse": [1, 2, 3, 6, 7, 12, 20], "xyz": (list(range(1, 41)), 4),
             "model": ({p: [1, 2, 3, 4, 5] for p in ("orca", "qchem", "nwchem", "g09")}, 30, 300)}
 
 
@@ -2142,6 +2237,9 @@ def run(ctx):
             stream_truncated(ctx, meths, F, [n], limit)
         ctx.log(f"truncated outputs done: {F.count} oracle failures so far; outcome histogram "
                 f"{ctx.cov['streams'].get('synth-truncated', {}).get('histogram')}")
+        # 4b. one calculation object, output rewritten under the same name
+        stream_reuse(ctx, meths, F, T["reuse"])
+        ctx.log(f"re-used calculation objects done: {F.count} oracle failures so far")
         # 5. xyz files
         stream_xyz(ctx, F, *T["xyz"])
         ctx.log(f"xyz done: {F.count} oracle failures in total; keys {sorted(F.seen)}")
